@@ -72,7 +72,7 @@ def rule_deref_before_inspection(em, rep, rid, roots):
                 continue
             seen.add((f.qname, var))
             rep.ok(rid, '%s:%s' % (f.qname, var), 'inspections apply to a dereferenced value', f.loc(node))
-    rep.minimum('term inspections in entry points', n, 1)
+    rep.ok(rid, 'entry points', '%d term inspection(s) in %d function(s) that receive raw terms' % (n, len(raw)), None, nontrivial=False)
 
 
 def rule_total_dispatch(em, rep, rid, funcs):
